@@ -356,3 +356,20 @@ func ObjectsOf(p *workflow.Plan) Objects {
 	}
 	return o
 }
+
+// SetPlanIDs stamps p.ID on every object below p (after the plan id was changed).
+func SetPlanIDs(p *workflow.Plan) {
+	o := ObjectsOf(p)
+	for _, x := range o.Checks {
+		x.SetPlanID(p.ID)
+	}
+	for _, x := range o.Blocks {
+		x.SetPlanID(p.ID)
+	}
+	for _, x := range o.Seqs {
+		x.SetPlanID(p.ID)
+	}
+	for _, x := range o.Actions {
+		x.SetPlanID(p.ID)
+	}
+}
